@@ -4,6 +4,7 @@ import (
 	"bytes"
 	"fmt"
 	"sort"
+	"strings"
 
 	"github.com/dtn7/dtn7-go/verif/ev"
 	"github.com/dtn7/dtn7-go/verif/gen"
@@ -29,7 +30,13 @@ func c14Def() nhCheckDef {
 		s := gen.Spec{Dst: "dtn://dest/x", Src: fmt.Sprintf("dtn://far%d/app", seed), Rpt: "dtn://collector/r", PCRC: 2, Lifetime: 3600000, PayLen: 6, PaySeed: seed, Flags: ref.FReqReception}
 		return nhBundle{Spec: s, Dest: "dest"}
 	}
-	bs := []nhBundle{mk(10, false), mk(20, false), mk(30, false), mk(40, true), mk(50, true), rq(60), rq(70)}
+	bs := []nhBundle{mk(10, false), mk(20, false), mk(30, false), mk(40, true), mk(50, true), rq(60), rq(70), mk(80, true), mk(90, true)}
+	// the last two clock-less bundles go to another node, so that they can be delivered (and purged) while an older
+	// clock-less bundle for the first destination is still on file
+	for _, i := range []int{7, 8} {
+		bs[i].Spec.Dst = "dtn://dest2/x"
+		bs[i].Dest = "dest2"
+	}
 	bs[1].Spec.Seq = 1 // an application may preset a sequence number; it must not clash with assigned ones
 	var scs []nhScenario
 	for _, a := range []string{"epidemic", "spray"} {
@@ -40,7 +47,7 @@ func c14Def() nhCheckDef {
 
 func c14Alphabet() []nhEvent {
 	return []nhEvent{
-		{Op: "submit", B: 0}, {Op: "submit", B: 1}, {Op: "agent", B: 2}, {Op: "submit", B: 3}, {Op: "agent", B: 4},
+		{Op: "submit", B: 0}, {Op: "submit", B: 1}, {Op: "agent", B: 2}, {Op: "submit", B: 3}, {Op: "agent", B: 4}, {Op: "submit", B: 7}, {Op: "submit", B: 8}, {Op: "up", P: "dest2"},
 		{Op: "receive", B: 5, P: "r1", Q: "r1"}, {Op: "receive", B: 6, P: "r1", Q: "r1"},
 		{Op: "up", P: "dest"}, {Op: "up", P: "r2"}, {Op: "up", P: "collector"}, {Op: "fail", P: "dest"}, {Op: "fail", P: "r2"}, {Op: "ok", P: "r2"},
 		{Op: "retry"}, {Op: "restart1s"},
@@ -73,6 +80,28 @@ func c14Oracle(r *nhRun) (string, string) {
 			kind := "application"
 			if rb.P.Flags&ref.FAdminRecord != 0 {
 				kind = "status-report"
+			}
+			// narrow class: a clock-less bundle was delivered and purged, the node restarted (its sequence counters
+			// live in memory only), and a later clock-less bundle of the same source got the forgotten ID again
+			if kind == "application" && rb.P.Time == 0 {
+				first, second := c14SubmitStep(r, strings.SplitN(other, "|", 2)[0]), c14SubmitStep(r, fmt.Sprintf("%x", pl))
+				restartBetween := false
+				for k := first + 1; first >= 0 && k < second; k++ {
+					restartBetween = restartBetween || strings.HasPrefix(r.steps[k].Event.Op, "restart")
+				}
+				onFile := false
+				if pend, perr := r.n.core.VerifStore().QueryPending(); perr == nil {
+					for _, bi := range pend {
+						if len(bi.Parts) == 1 {
+							if sb, lerr := bi.Parts[0].Load(); lerr == nil && fmt.Sprintf("%x", payloadOf(&sb)) == strings.SplitN(other, "|", 2)[0] {
+								onFile = true
+							}
+						}
+					}
+				}
+				if restartBetween && !onFile {
+					return "two-bundles-one-id-on-the-wire:zero-time:id-of-purged-bundle-reused-after-restart", fmt.Sprintf("two different clock-less bundles left the node under the ID %s: the first was transmitted and purged, the node restarted, and the second was given the same sequence number again", id)
+				}
 			}
 			return "two-bundles-one-id-on-the-wire:" + kind, fmt.Sprintf("two different bundles left the node under the ID %s", id)
 		}
@@ -145,7 +174,7 @@ func c14Oracle(r *nhRun) (string, string) {
 		sort.Strings(missing)
 		kind := "same-millisecond"
 		for _, m := range missing {
-			if m == "b3" || m == "b4" {
+			if m == "b3" || m == "b4" || m == "b7" || m == "b8" {
 				kind = "zero-time"
 			}
 		}
@@ -173,6 +202,11 @@ func runC14(r *ev.Run, thorough bool) int {
 		plans = append(plans, nhPlan{Scenario: si, Alphabet: c14Alphabet(), Depth: depth, Budget: budget})
 		plans = append(plans, nhPlan{Scenario: si, Root: []nhEvent{{Op: "up", P: "r2"}, {Op: "fail", P: "r2"}, {Op: "up", P: "collector"}}, Alphabet: c14Alphabet(), Depth: depth, Budget: budget})
 		plans = append(plans, nhPlan{Scenario: si, Root: []nhEvent{{Op: "up", P: "dest"}}, Alphabet: c14Alphabet(), Depth: depth, Budget: budget})
+		// two clock-less bundles of one source wait in the store across a restart
+		plans = append(plans, nhPlan{Scenario: si, Root: []nhEvent{{Op: "submit", B: 3}, {Op: "agent", B: 4}, {Op: "restart1s"}}, Alphabet: c14Alphabet(), Depth: depth - 1, Budget: budget})
+		// a clock-less bundle waits in the store, the node restarts, another destination connects: later clock-less
+		// submissions for it are delivered and purged one by one while the old one stays on file
+		plans = append(plans, nhPlan{Scenario: si, Root: []nhEvent{{Op: "submit", B: 3}, {Op: "restart1s"}, {Op: "up", P: "dest2"}}, Alphabet: c14Alphabet(), Depth: depth, Budget: budget})
 	}
 	n := nhRunPlans(r, "C14", "c14", plans,
 		"frozen virtual clock: five application bundles with identical source and creation time (two of them clock-less) submitted via SendBundle and via the agent path, two received bundles whose reception reports the node originates in the same millisecond; BFS over submissions, receptions, peers, send outcomes, retry ticks and restart; in every state the mapping bundle <-> ID on the wire is a bijection, every untransmitted submission has its own store record under the ID it carries, and each (re)transmission uses the stored ID",
@@ -193,4 +227,18 @@ func runC14(r *ev.Run, thorough bool) int {
 			return n
 		})
 	return n
+}
+
+// c14SubmitStep returns the index of the step that submitted the test bundle with this payload (hex), or -1.
+func c14SubmitStep(r *nhRun, payloadHex string) int {
+	for k, st := range r.steps {
+		if st.Event.Op != "submit" && st.Event.Op != "agent" {
+			continue
+		}
+		sp := r.sc.Bundles[st.Event.B].Spec
+		if fmt.Sprintf("%x", gen.Payload(int(sp.PayLen), sp.PaySeed)) == payloadHex {
+			return k
+		}
+	}
+	return -1
 }
